@@ -350,6 +350,19 @@ func (c *inlCtx) tryStmt(st ast.Stmt) {
 				c.tryCall(st, call, kindAssign, t, false)
 			}
 		}
+	case *ast.DeclStmt:
+		// var x T = f(...)
+		if gd, ok := t.Decl.(*ast.GenDecl); ok && gd.Tok == token.VAR && len(gd.Specs) == 1 {
+			if vs, ok := gd.Specs[0].(*ast.ValueSpec); ok && len(vs.Values) == 1 {
+				if call, ok := ast.Unparen(vs.Values[0]).(*ast.CallExpr); ok {
+					var lhs []ast.Expr
+					for _, nm := range vs.Names {
+						lhs = append(lhs, nm)
+					}
+					c.tryCall(st, call, kindAssign, &ast.AssignStmt{Lhs: lhs, Tok: token.DEFINE, Rhs: vs.Values}, false)
+				}
+			}
+		}
 	case *ast.ReturnStmt:
 		if len(t.Results) == 1 {
 			if call, ok := ast.Unparen(t.Results[0]).(*ast.CallExpr); ok {
@@ -784,7 +797,11 @@ func (c *inlCtx) tryCall(st ast.Stmt, call *ast.CallExpr, kind callKind, as *ast
 					return
 				}
 				if id.Name != "_" && info.Defs[id] != nil {
-					pre = append(pre, fmt.Sprintf("var %s %s", id.Name, typeStr(sig.Results().At(i).Type())))
+					vt := sig.Results().At(i).Type()
+					if dv, isV := info.Defs[id].(*types.Var); isV && dv.Type() != nil {
+						vt = dv.Type() // `var x T = f()` declares x with T, which may be an interface the result implements
+					}
+					pre = append(pre, fmt.Sprintf("var %s %s", id.Name, typeStr(vt)))
 				}
 				targets = append(targets, id.Name)
 			} else {
